@@ -17,10 +17,56 @@ def nontrivial(sc):
     return False
 
 
+def obstruction_probe(xvc, rng, parallel):
+    """oracle only (directories are not entries of M-REPO): several committed files are deleted, a directory
+    is put where one of them was, and ONE recheck command is asked to restore them all.  The obstructed
+    path cannot be restored; every other one must be ("reproduces exactly the committed bytes at that
+    path ... in serial or parallel mode").  Returns (scenario description, list of problems)."""
+    import os
+    from .xvc import XvcRepo
+    n = rng.randint(5, 9)
+    names = ["f%02d.%s" % (i, rng.choice(["txt", "dat", "bin"])) for i in range(n)]
+    if rng.random() < 0.5:
+        names = ["d/" + x if i % 2 else x for i, x in enumerate(names)]
+    method = rng.choice(["copy", "hardlink", "symlink"])
+    blocked = rng.choice(names)
+    sc = {"files": names, "method": method, "blocked": blocked, "parallel": parallel}
+    bad = []
+    with XvcRepo(xvc, prefix="c01obs", git=False) as rp:
+        want = {}
+        for i, x in enumerate(names):
+            want[x] = ("content of %s #%d\n" % (x, i)).encode()
+            rp.write(x, want[x])
+        r = rp.xvc("--skip-git", "file", "track", "--recheck-method", method, *names)
+        if r.failed:
+            return sc, []
+        for x in names:
+            os.unlink(rp.path(x))
+        os.mkdir(rp.path(blocked))
+        args = ["--skip-git", "file", "recheck"] + (["--no-parallel"] if not parallel else [])
+        rp.xvc(*args)
+        for x in names:
+            if x == blocked:
+                continue
+            got = rp.read(x)
+            if got != want[x]:
+                bad.append("after deleting %d committed files and putting a directory at %s, `xvc file recheck%s` did not restore %s (%s)" % (
+                    n, blocked, "" if parallel else " --no-parallel", x, "absent" if got is None else "other bytes"))
+    return sc, bad
+
+
 def run(chk, replay=None):
     chk.assumptions += ["ideal hash functions in the model; the oracle re-hashes with the reference BLAKE3 / hashlib",
                         "edits_visible: every user write of the runner gets a distinct explicit mtime"]
-    return K.drive(chk, replay, "C01", K.gen_c01, K.c01_oracle, nontrivial, n_quick=100, n_thorough=800,
+    if replay and replay.get("kind") == "obstruction":
+        xvc = C.ensure_xvc()
+        chk.proof()
+        import random
+        sc, bad = obstruction_probe(xvc, random.Random(replay["rseed"]), replay["parallel"])
+        for w in bad[:1]:
+            chk.fail("oracle", w, {"kind": "obstruction", "rseed": replay["rseed"], "parallel": replay["parallel"], "scenario": sc}, name="obstruction")
+        return
+    res = K.drive(chk, replay, "C01", K.gen_c01, K.c01_oracle, nontrivial, n_quick=100, n_thorough=800,
                    rule=("histories = writes of 1-3 paths (nested, no extension, blanks, non-ASCII, dotfile, double extension; contents incl. empty, "
                          "CR/LF mixes, files differing only in line endings, NUL at byte 7999/8000/8001, duplicates), a commit by track or by "
                          "track --no-commit + carry-in, 1-5 later user actions / track / carry-in / recheck commands, then for every path a probe: "
@@ -29,3 +75,16 @@ def run(chk, replay=None):
                          "non-trivial = a recheck restores a committed path that was absent or is forced over a modified copy; distinct by whole history"),
                    theorems="recheck_restores_committed / force_replaces_modified_copy / force_keeps_recorded_version / track_commits_content / stays_restorable",
                    list_kinds=("recheck",))
+    if not replay:
+        import random
+        xvc = C.ensure_xvc()
+        nobs, nbad = (8 if chk.tier == "quick" else 60), 0
+        for i in range(nobs):
+            rseed = chk.rng.randrange(1 << 30)
+            sc, bad = obstruction_probe(xvc, random.Random(rseed), parallel=bool(i % 2))
+            chk.count(("obstruction", rseed, i % 2), True)
+            if bad and nbad < 2:
+                nbad += 1
+                chk.fail("oracle", bad[0], {"kind": "obstruction", "rseed": rseed, "parallel": bool(i % 2), "scenario": sc, "all": bad[:10]}, name="obstruction")
+        chk.cov.setdefault("distribution", {})["obstruction_probes"] = nobs
+    return res
